@@ -115,6 +115,7 @@ type c02World struct {
 	g2       *bls12.G2
 	garbageN int
 	pick     int
+	repeat   bool // repetitions of one aggregate: first verifier only, no sub-streams
 }
 
 // oracle forwards to verifOut.Oracle but keeps at most 3 failing inputs per fingerprint, so that a
